@@ -327,16 +327,17 @@ impl<'a> Gen<'a> {
             }
             4 => {
                 if has_str && r.chance(1, 2) {
-                    let n = r.range(1, 4) as usize;
+                    let n = r.range(1, 6) as usize;
                     let mut vs: Vec<Lit> = (0..n).map(|_| self.lit_str(r)).collect();
-                    if r.chance(1, 5) {
+                    if r.chance(1, 4) {
                         vs.push(Lit::Null);
                     }
                     E::InList(Box::new(self.string(r, d)), vs, r.chance(1, 3))
                 } else {
-                    let n = r.range(1, 5) as usize;
+                    // list lengths on both sides of the engine's small-list / hash-set threshold
+                    let n = r.range(1, 9) as usize;
                     let mut vs: Vec<Lit> = (0..n).map(|_| self.lit_int(r)).collect();
-                    if r.chance(1, 5) {
+                    if r.chance(1, 4) {
                         vs.push(Lit::Null);
                     }
                     E::InList(Box::new(self.int(r, d)), vs, r.chance(1, 3))
